@@ -198,6 +198,90 @@ def check_bytes(data: bytes) -> list:
     return viols
 
 
+HOSTILE_BYTES = [b"\xb0", b"\xff\xfe", b"\xc3", b"\xc3\xa9", b"\xed\xa0\x80", b"\x00", b"21\xb0C", b"\x80abc", b"\xf0\x9f\x98\x80"]
+
+
+def byte_histories(version) -> list:
+    """Multi-line byte streams: a hostile payload lands in each slot that is stored, then lines that echo it."""
+    wt = R.wake_type(version) if version else None
+    out = []
+    setup = [b"1;255;0;0;17;2.0", b"1;3;0;0;3;d"]
+    tails = [b"1;3;2;0;2;", b"1;255;3;0;6;", b"1;3;1;0;2;ok", b"255;255;3;0;3;"]
+    if wt is not None:
+        tails = [b"1;255;3;0;%d;0" % wt] + tails
+    for hb in HOSTILE_BYTES:
+        slots = [
+            [b"1;3;1;0;2;" + hb],  # stored value, echoed by the req below
+            [b"1;3;0;0;3;" + hb],  # child description
+            [b"1;255;3;0;11;" + hb],  # sketch name
+            [b"1;255;3;0;0;" + hb],  # battery
+            [b"2;255;0;0;17;" + hb],  # node version string
+            [b"0;255;3;0;2;" + hb],  # gateway version reply
+            [hb + b";3;1;0;2;x"],  # node id field
+        ]
+        for slot in slots:
+            out.append(b"\n".join(setup + slot + tails) + b"\n")
+    return out
+
+
+def check_byte_history(version, data: bytes) -> list:
+    """Like check_bytes but with a chosen version (None = unknown) and a final usability probe."""
+    global _LOOP
+    viols = []
+    if _LOOP is None:
+        _LOOP = asyncio.new_event_loop()
+
+    def bad(k, what):
+        viols.append((f"C03|bytes-history-{k}", f"[version {version}] byte stream {data!r}: {what}", {"bytes_history": data.hex(), "version": version}))
+
+    probe = b"".join(R.enc(*f).encode() for f in PROBE)
+    reader = asyncio.StreamReader(limit=4096, loop=_LOOP)
+    reader.feed_data(data + probe)
+    reader.feed_eof()
+    writer = FakeWriter()
+
+    async def open_connection(**kwargs):
+        return reader, writer
+
+    transport = TCPTransport("h")
+    with patch("aiomysensors.transport.tcp.asyncio.open_connection", open_connection):
+        drive(transport.connect())
+    gw = Gateway(transport)
+    if version is not None:
+        gw.protocol_version = version
+    agen = None
+    yielded = []
+    nlines = data.count(b"\n") + len(PROBE)
+    for _ in range(nlines + 2):
+        if agen is None:
+            agen = gw.listen()
+        try:
+            m = drive(agen.__anext__())
+            yielded.append((m.node_id, m.child_id, m.command, m.ack, m.message_type, m.payload))
+        except AIOMySensorsError:
+            agen = None
+            if reader.at_eof():
+                break
+        except core.HarnessError:
+            raise
+        except BaseException as exc:  # noqa: BLE001
+            agen = None
+            bad(f"foreign-exception:{type(exc).__name__}", f"listen() raised {type(exc).__name__}: {exc}")
+            if reader.at_eof():
+                break
+    if yielded[-len(PROBE):] != list(PROBE):
+        bad("unusable-after", f"the well-formed lines at the end of the stream were not processed normally; yielded tail {yielded[-3:]}")
+    return viols
+
+
+def job_byte_histories(j):
+    version, streams = j
+    viols = []
+    for d in streams:
+        viols += check_byte_history(version, d)
+    return len(streams), viols
+
+
 def job_bytes(chunk):
     viols = []
     for b in chunk:
@@ -224,6 +308,8 @@ def run(ctx: core.Ctx) -> core.Report:
     streams += [b"1;1;1;0;2;\xff\xfe\n1;255;0;0;17;2.0\n", b"1;255;3;0;0;\xc3\n", b"\xff\xfe\n" * 3]
     bchunks = [streams[i : i + 300] for i in range(0, len(streams), 300)]
     bres = core.pmap(job_bytes, bchunks, ctx.workers, chunksize=1)
+    hjobs = [(v, byte_histories(v)) for v in [None, *R.VERSIONS]]
+    bres += core.pmap(job_byte_histories, hjobs, ctx.workers, chunksize=1)
     total = sum(r[0] for r in res)
     btotal = sum(r[0] for r in bres)
     viols = [core.Violation(k, w, rep) for r in res + bres for k, w, rep in r[1]]
@@ -234,7 +320,7 @@ def run(ctx: core.Ctx) -> core.Report:
         "exhaustive": True,
         "hostile_lines": len(lines),
         "byte_streams": btotal,
-        "rule": "controller states = all distinct states reachable in <= 2/3 set-up events (BFS, canonical form) per version incl. unknown; in every state every line of the hostile alphabet is delivered to a real Gateway.listen step, followed by a 3-line usability probe; byte level: every byte string up to length L over 6 byte values through real StreamReader -> TCPTransport.read -> Gateway.listen",
+        "rule": "controller states = all distinct states reachable in <= 2/3 set-up events (BFS, canonical form) per version incl. unknown; in every state every line of the hostile alphabet is delivered to a real Gateway.listen step, followed by a 3-line usability probe; byte level: every byte string up to length L over 6 byte values through real StreamReader -> TCPTransport.read -> Gateway.listen; plus multi-line byte histories with 9 hostile byte payloads in 7 stored/echoed slots followed by lines that echo them (req, config, wake, id request) and the probe, per version",
         "bounds": {"versions": versions, "setup_depth": 3 if ctx.quick else 4, "byte_len": L},
         "samples": sample_states[:2] + [{"line": lines[ctx.seed % len(lines)]}, {"bytes": streams[-4].hex()}],
     }
@@ -247,7 +333,9 @@ def run(ctx: core.Ctx) -> core.Report:
 
 
 def replay(data: dict) -> dict:
-    if "bytes" in data:
+    if "bytes_history" in data:
+        v = check_byte_history(data["version"], bytes.fromhex(data["bytes_history"]))
+    elif "bytes" in data:
         v = check_bytes(bytes.fromhex(data["bytes"]))
     else:
         v = check_one(data["version"], data["hist"], data["line"])
